@@ -50,14 +50,31 @@ Proof.
 Qed.
 
 (* the thread lists produced by a step, as far as a wake-invariant sum is concerned *)
-Ltac sum_upd f :=
+Lemma sum_step_wake (f : thread -> nat) ths ths' tid th x :
+  sumf f ths' = sumf f ths -> nth_error ths' tid = Some th -> sumf f (upd tid x ths') + f th = sumf f ths + f x.
+Proof. intros Hs Hn. rewrite <- Hs. now apply sumf_upd. Qed.
+
+Ltac not_asleep Epc := first [unfold asleep_pop; rewrite Epc; reflexivity | unfold asleep_push; rewrite Epc; reflexivity].
+
+(* [sum_upd f Hpush Hpop]: poses the equation  sumf f (new list) + f th = sumf f (old list) + f th'  for a sum
+   that the wake functions leave alone (Hpush : forall th, f (wake_push th) = f th, Hpop likewise) *)
+Ltac sum_upd f Hpush Hpop :=
   repeat match goal with
          | |- context [sumf f (?a ++ ?b)] => rewrite (sumf_app f a b)
          | |- context [sumf f (repeat ?x ?n)] => rewrite (sumf_repeat f x n)
          end;
+  let Hs := fresh "Hs" in
   match goal with
-  | Hth : nth_error ?ths ?tid = Some ?th |- context [sumf f (upd ?tid ?x ?ths)] =>
-    let Hs := fresh "Hs" in pose proof (sumf_upd f tid x ths th Hth) as Hs
+  | Hth : nth_error ?ths ?t = Some ?th, Epc : t_pc ?th = _ |- context [sumf f (upd ?t ?x (signal ?g wake_pop ?ww ?ths))] =>
+    pose proof (sum_step_wake f ths _ t th x (sumf_signal_same f g wake_pop ww ths Hpop) (nth_error_signal g wake_pop ww ths t th Hth ltac:(not_asleep Epc))) as Hs
+  | Hth : nth_error ?ths ?t = Some ?th, Epc : t_pc ?th = _ |- context [sumf f (upd ?t ?x (broadcast wake_pop ?ths))] =>
+    pose proof (sum_step_wake f ths _ t th x (sumf_broadcast_same f wake_pop ths Hpop) (nth_error_broadcast_pop ths t th Hth ltac:(not_asleep Epc))) as Hs
+  | Hth : nth_error ?ths ?t = Some ?th, Epc : t_pc ?th = _ |- context [sumf f (upd ?t ?x (broadcast wake_push ?ths))] =>
+    pose proof (sum_step_wake f ths _ t th x (sumf_broadcast_same f wake_push ths Hpush) (nth_error_broadcast_push ths t th Hth ltac:(not_asleep Epc))) as Hs
+  | Hth : nth_error ?ths ?t = Some ?th, Epc : t_pc ?th = _ |- context [sumf f (upd ?t ?x (wake_pushers ?b ?ww ?ths))] =>
+    pose proof (sum_step_wake f ths _ t th x (sumf_wake_pushers_same f b ww ths Hpush) (nth_error_wake_pushers b ww ths t th Hth ltac:(not_asleep Epc))) as Hs
+  | Hth : nth_error ?ths ?t = Some ?th |- context [sumf f (upd ?t ?x ?ths)] =>
+    pose proof (sumf_upd f t x ths th Hth) as Hs
   end.
 
 Lemma is_free_owner p : is_free p = true -> owner p = None.
@@ -66,11 +83,8 @@ Proof. unfold is_free. destruct (owner p); auto; discriminate. Qed.
 Lemma mutex_step cfg tid w s s' : MutexOK s -> step cfg tid w s = Some s' -> MutexOK s'.
 Proof.
   unfold MutexOK. intros HM H.
-  assert (Hsame : forall x ths', sumf nholds ths' = sumf nholds (st s) -> nth_error ths' tid = nth_error (st s) tid ->
-                                forall th, nth_error (st s) tid = Some th -> sumf nholds (upd tid x ths') + nholds th = sumf nholds (st s) + nholds x).
-  { intros x ths' Hs Hn th Hth. rewrite <- Hs. apply sumf_upd. congruence. }
   step_inv H; cbn;
     try (apply is_free_owner in E; rewrite E in HM);
-    try match goal with Hf : finish_op _ _ _ _ = _ |- _ => pose proof (finish_not_holding _ _ _ _ _ _ Hf) end.
-  all: try (sum_upd nholds; unfold nholds in *; cbn in *; rewrite ?Epc in *; cbn in *; destruct (owner (sp s)); lia).
+    try match goal with Hf : finish_op _ _ _ _ = _ |- _ => pose proof (finish_not_holding _ _ _ _ _ _ Hf) end;
+    sum_upd nholds nholds_wake_push nholds_wake_pop; unfold nholds in *; cbn in *; rewrite ?Epc in *; cbn in *; destruct (owner (sp s)); lia.
 Qed.
